@@ -983,6 +983,25 @@ STD_REDIRECTS = [
     (re.compile(r"<(std::iter::)?Filter<.*> as Iterator>::count|<DrvFilter<.*> as Iterator>::count|<adaptors::DrvFilter<.*> as Iterator>::count"), "drv_filter_count"),
     (re.compile(r"<(std::iter::)?Filter<.*> as Iterator>::next"), "drv_filter_next"),
     (re.compile(r"<(std::iter::)?Map<.*> as Iterator>::next"), "drv_map_next"),
+    (re.compile(r"<.* as Iterator>::enumerate"), "drv_iter_enumerate"),
+    (re.compile(r"<.* as Iterator>::take_while"), "drv_iter_take_while"),
+    (re.compile(r"<.* as Iterator>::skip"), "drv_iter_skip"),
+    (re.compile(r"<.* as Iterator>::take"), "drv_iter_take"),
+    (re.compile(r"<.* as Iterator>::zip"), "drv_iter_zip"),
+    (re.compile(r"<.* as Iterator>::chain"), "drv_iter_chain"),
+    (re.compile(r"<(std::iter::)?Enumerate<.*> as Iterator>::next"), "drv_enumerate_next"),
+    (re.compile(r"<(std::iter::)?TakeWhile<.*> as Iterator>::next"), "drv_take_while_next"),
+    (re.compile(r"<(std::iter::)?Skip<.*> as Iterator>::next"), "drv_skip_next"),
+    (re.compile(r"<(std::iter::)?Take<.*> as Iterator>::next"), "drv_take_next"),
+    (re.compile(r"<(std::iter::)?Zip<.*> as Iterator>::next"), "drv_zip_next"),
+    (re.compile(r"<(std::iter::)?Chain<.*> as Iterator>::next"), "drv_chain_next"),
+    (re.compile(r"<.* as Iterator>::position"), "drv_iter_position"),
+    (re.compile(r"<.* as Iterator>::find"), "drv_iter_find"),
+    (re.compile(r"<.* as Iterator>::find_map"), "drv_iter_find_map"),
+    (re.compile(r"<.* as Iterator>::fold"), "drv_iter_fold"),
+    (re.compile(r"<.* as Iterator>::last"), "drv_iter_last"),
+    (re.compile(r"<.* as Iterator>::nth"), "drv_iter_nth"),
+    (re.compile(r"(core::)?slice::<impl \[.*\]>::partition_point"), "drv_slice_partition_point"),
     (re.compile(r"<.* as Iterator>::count"), "drv_iter_count"),
     (re.compile(r"<.* as Iterator>::any"), "drv_iter_any"),
     (re.compile(r"<.* as Iterator>::all"), "drv_iter_all"),
